@@ -61,6 +61,14 @@ nograd_functions = [
     anp.zeros_like,
     anp.ones_like,
     anp.result_type,
+    anp.signbit,
+    anp.isin,
+    anp.digitize,
+    anp.lexsort,
+    anp.nanargmax,
+    anp.nanargmin,
+    anp.isrealobj,
+    anp.isfortran,
 ]
 
 for fun in nograd_functions:
